@@ -28,8 +28,16 @@ def join(a, b):
                                                z3.If(a.z == DOT, bz, z3.Concat(a.z, SEP, bz)))))
 
 
-def _last_sep(z):
-    return z3.LastIndexOf(z, SEP)
+def _last_sep(V, st, z):
+    """index of the last separator (-1 if none), as an axiomatised function (portable across solvers)"""
+    f = V.uf('path.last_sep', [z3.StringSort()], z3.IntSort())
+    i = f(z)
+    n = z3.Length(z)
+    st.assume(z3.And(i >= -1, i < n))
+    st.assume(z3.Implies(i >= 0, z3.And(z3.SubString(z, i, 1) == SEP,
+                                        z3.Not(z3.Contains(z3.SubString(z, i + 1, n - i - 1), SEP)))))
+    st.assume(z3.Implies(i == -1, z3.Not(z3.Contains(z, SEP))))
+    return i
 
 
 def path_attr(V, st, p, attr, node):
@@ -37,10 +45,10 @@ def path_attr(V, st, p, attr, node):
     if attr == 'parents':
         return MPathParents(p)
     if attr == 'parent':
-        i = _last_sep(z)
+        i = _last_sep(V, st, z)
         return SV(PATH, z3.If(i > 0, z3.SubString(z, 0, i), z3.If(i == 0, SEP, DOT)))
     if attr == 'name':
-        i = _last_sep(z)
+        i = _last_sep(V, st, z)
         return SV(STR, z3.If(z == SEP, z3.StringVal(''), z3.SubString(z, i + 1, z3.Length(z) - i - 1)))
     if attr == 'suffix':
         f = V.uf('path.suffix', [z3.StringSort()], z3.StringSort())
